@@ -159,14 +159,15 @@ def run_version(args):
     # a fully valid frame of ANOTHER command under the pending command's sequence number
     from .c07 import gen
     cmds = holder["cmds"]
-    pend_cmds = [c for c in ("getNodeId", "setPolicy", "getConfigurationValue", "setConfigurationValue", "sendUnicast", "nop", "getEui64",
+    # `version` owns frame ID 0 in every protocol version (and is what is pending during every negotiation)
+    pend_cmds = [c for c in ("version", "getNodeId", "setPolicy", "getConfigurationValue", "setConfigurationValue", "sendUnicast", "nop", "getEui64",
                              "networkState", "setValue") if c in cmds and isinstance(cmds[c][1], dict)]
     names = [n for n in cmds if isinstance(cmds[n][2], dict)]
     k = 0
     for pend_cmd in pend_cmds:
         for name in names:
             k += 1
-            if name == pend_cmd or (quick and (k + ver) % 4):
+            if name == pend_cmd or (quick and (k + ver) % 4 and pend_cmd != "version"):
                 continue
             vals = [gen(ty, rng) for ty in cmds[name][2].values()]
             payload = b"".join(v.serialize() for v in vals)
